@@ -1741,3 +1741,113 @@ def point_equality_table(db, chk, cfg, rule="T.point-equality"):
     if found < 4:
         raise AnalysisBroken("operator== / operator!= of Point<int64_t> and Point<double> not all found (%d)" % found)
     return n
+
+
+# ---------------------------------------------------------------------------
+# PointInPolygon: the predecessor of the first vertex is the container's last vertex (C18)
+# ---------------------------------------------------------------------------
+
+def _unparen(t):
+    """Remove balanced outer parentheses of a canonical expression text."""
+    while t.startswith("(") and t.endswith(")"):
+        depth = 0
+        ok = True
+        for i, ch in enumerate(t):
+            if ch == "(":
+                depth += 1
+            elif ch == ")":
+                depth -= 1
+                if depth == 0 and i != len(t) - 1:
+                    ok = False
+                    break
+        if not ok:
+            break
+        t = t[1:-1]
+    return t
+
+
+def pip_wrap_rule(db, chk, cfg, rule="WRAP.container-end"):
+    """PointInPolygon walks the polygon cyclically from an arbitrary start vertex and moves its local end marker while it does so.
+    When the cursor stands on the first element the predecessor is the *container's* last element: every `prev = E - 1` must take E
+    from polygon.cend() / end() - directly, or through a local all of whose reaching definitions are that call (reaching-definitions
+    dataflow over the structured CFG).  A moved end marker there makes the edge that closes the polygon start at the wrong vertex."""
+    from ..flow import Walker, Client
+    n = 0
+    for f in db.find("PointInPolygon"):
+        if len(f.params) != 2:
+            continue
+        poly = f.params[1]["name"]
+        ends = ("%s.cend()" % poly, "%s.end()" % poly)
+        sites = []
+
+        class C(Client):
+            def join(self, a, b):
+                keys = set(a) | set(b)
+                return {k: frozenset(a.get(k, frozenset({"?"}))) | frozenset(b.get(k, frozenset({"?"}))) for k in keys}
+
+            def equal(self, a, b):
+                return a == b
+
+            def _apply(self, node, st):
+                for y in walk(node):
+                    k = y.get("kind")
+                    if k == "VarDecl" and y.get("name"):
+                        init = [c for c in kids(y) if isinstance(c, dict) and c.get("kind")]
+                        st = dict(st)
+                        st[y["name"]] = frozenset({_unparen(canon(init[-1])) if init else "?"})
+                    elif k in ("BinaryOperator", "CXXOperatorCallExpr"):
+                        l = r = None
+                        if k == "BinaryOperator" and y.get("opcode") == "=":
+                            l, r = kids(y)
+                        elif k == "CXXOperatorCallExpr" and len(kids(y)) == 3 and strip(kids(y)[0]).get("referencedDecl", {}).get("name") == "operator=":
+                            l, r = kids(y)[1], kids(y)[2]
+                        if l is None or strip(l).get("kind") != "DeclRefExpr":
+                            continue
+                        name = canon(l)
+                        rs = strip(r)
+                        # any `E - 1` inside the right-hand side (directly or in the arms of a conditional expression)
+                        for z in walk(r):
+                            minus = None
+                            if z.get("kind") == "CXXOperatorCallExpr" and strip(kids(z)[0]).get("referencedDecl", {}).get("name") == "operator-" and len(kids(z)) == 3:
+                                minus = (kids(z)[1], kids(z)[2])
+                            elif z.get("kind") == "BinaryOperator" and z.get("opcode") == "-":
+                                minus = tuple(kids(z))
+                            if minus and canon(minus[1]) == "1":
+                                e = _unparen(canon(minus[0]))
+                                if e in ends:
+                                    sites.append((y, e, frozenset({e})))
+                                elif e in st:
+                                    sites.append((y, e, st[e]))
+                                elif "end" in e.split("->")[-1]:
+                                    sites.append((y, e, frozenset({"?"})))
+                        st = dict(st)
+                        st[name] = frozenset({_unparen(canon(r))})
+                return st
+
+            def stmt(self, node, st):
+                return self._apply(node, st)
+
+            def cond_atom(self, expr, st):
+                s = self._apply(expr, st)
+                return s, s
+        Walker(C()).function(f.body, {})
+        # keep the sites whose base is an end marker (a local defined from polygon.cend() somewhere, or the call itself)
+        wraps = [(y, e, defs) for y, e, defs in sites if e in ends or any(d in ends for d in defs) or "end" in e]
+        if not wraps:
+            raise AnalysisBroken("%s: no wrap-around predecessor (`prev = <end> - 1`) found" % f.qual)
+        seen = set()
+        for y, e, defs in wraps:
+            key = (where(y), e)
+            if key in seen:
+                continue
+            seen.add(key)
+            ok = all(d in ends for d in defs)
+            n += 1
+            chk.instance(rule, {"function": f.qual, "sig": f.sig[:60], "statement": canon(y)[:60], "reaching_definitions": sorted(defs), "cfg": cfg}, ok=ok)
+            if not ok:
+                chk.violation(rule, f.qual, "%s|%s" % (f.sig[:40], e), "`%s`: `%s` can hold %s here, not only the container's end: when the cursor stands on the first "
+                              "vertex its predecessor must be the polygon's last vertex (the local end marker is moved to the start vertex during the "
+                              "walk)" % (canon(y)[:70], e, sorted(d for d in defs if d not in ends)), where(y), cfg=cfg)
+    if n == 0:
+        raise AnalysisBroken("PointInPolygon not found")
+    return n
